@@ -476,6 +476,28 @@ func atGenInsert(r *vc.Rand, t *atTable, o atStmtOpts, nrows int, seq *int) atSt
 		Feat: map[string]string{"stmt": "insert", "params": fmt.Sprint(o.params), "rows": rc, "insert_cols": colOrder}}
 }
 
+// atGenMulti: two or three UPDATE / DELETE statements on one table sent as one multi-statement text with bound arguments.
+func atGenMulti(r *vc.Rand, t *atTable, kind string) atStmt {
+	n := 2 + r.Intn(2)
+	var parts []string
+	var args []tval
+	o := atStmtOpts{params: true, rowsClass: "1"}
+	for k := 0; k < n; k++ {
+		if k == 1 && r.Intn(3) == 0 {
+			o.rowsClass = "many"
+		}
+		var st atStmt
+		if kind == "update" {
+			st = atGenUpdate(r, t, o)
+		} else {
+			st = atGenDelete(r, t, o)
+		}
+		parts = append(parts, st.SQL)
+		args = append(args, st.Args...)
+	}
+	return atStmt{Kind: kind, Table: t.Name, SQL: strings.Join(parts, "; "), Args: args, Feat: map[string]string{"stmt": "multi-" + kind, "params": "true", "rows": "many", "where": "pk-eq"}}
+}
+
 // atInsertedRow: the key values atGenInsert gave the row it generated at sequence number seq (other columns nil)
 func atInsertedRow(t *atTable, seq int) []interface{} {
 	row := make([]interface{}, len(t.Def.Cols))
